@@ -194,6 +194,14 @@ func (d StoreDump) Conf() Conf {
 // WriteConfigStore writes a configuration directly into the CONFIG store, as
 // a completed sync would have (used for initial running configurations).
 func WriteConfigStore(ctx context.Context, cc cache.Client, ds string, c Conf) error {
+	return WriteStore(ctx, cc, ds, cachepb.Store_CONFIG, c)
+}
+
+// WriteStore writes leaves directly into the CONFIG or STATE store.
+func WriteStore(ctx context.Context, cc cache.Client, ds string, store cachepb.Store, c Conf) error {
+	if len(c) == 0 {
+		return nil
+	}
 	var upds []*cache.Update
 	for _, k := range c.SortedKeys() {
 		p := MustCanon(k)
@@ -208,5 +216,5 @@ func WriteConfigStore(ctx context.Context, cc cache.Client, ds string, c Conf) e
 		}
 		upds = append(upds, cache.NewUpdate(p.Slice(true), b, 0, "", 0))
 	}
-	return cc.Modify(ctx, ds, &cache.Opts{Store: cachepb.Store_CONFIG}, nil, upds)
+	return cc.Modify(ctx, ds, &cache.Opts{Store: store}, nil, upds)
 }
